@@ -5,7 +5,7 @@ LEVEL = 'proof'
 UNITS = [chunker.next_cut_frame('C11'), chunker.c10_lemmas('C11'), chunker.call_unit('C11'), snapshot.stream_unit('C11')]
 BOUNDED = [
     {'name': 'C11.resync', 'script': 'bounded/c11_resync.py', 'timeout': 600,
-     'bound': 'statistical: 16 (thorough: 60) seeded high-entropy streams of 24-64 KiB, min=64, max=1024, one aligned insert/delete/overwrite each; '
+     'bound': 'statistical: 16 (thorough: 300) seeded high-entropy streams of 24-64 KiB, min=64, max=1024, one aligned insert/delete/overwrite each; '
               're-synchronisation demanded within 8*max after the edit; two random keys must differ; shared-suffix streams compared from the first common boundary'},
 ]
 TRUSTED = ['vf symbolic executor + cvc front end', 'z3 5.1, cvc5 1.0.3']
